@@ -29,7 +29,14 @@ var initCmd = &cobra.Command{
 		if err != nil {
 			return errors.New("fail to get current path")
 		}
-		goitDir := filepath.Join(curPath, ".goit")
+		// build the repository aside and rename it to .goit when it is complete:
+		// an interrupted init must not leave a half-made .goit which no command can use
+		// and which a second init takes for 'already initialized'
+		finalGoitDir := filepath.Join(curPath, ".goit")
+		goitDir := filepath.Join(curPath, ".goit.init")
+		if err := os.RemoveAll(goitDir); err != nil {
+			return fmt.Errorf("%w: %s", ErrIOHandling, goitDir)
+		}
 		if err := os.Mkdir(goitDir, os.ModePerm); err != nil {
 			return fmt.Errorf("%w: %s", ErrIOHandling, goitDir)
 		}
@@ -76,8 +83,16 @@ var initCmd = &cobra.Command{
 			return fmt.Errorf("%w: %s", ErrIOHandling, tagsDir)
 		}
 
+		// put the complete repository in place
+		if err := f.Close(); err != nil {
+			return fmt.Errorf("%w: %s", ErrIOHandling, headFile)
+		}
+		if err := os.Rename(goitDir, finalGoitDir); err != nil {
+			return fmt.Errorf("%w: %s", ErrIOHandling, finalGoitDir)
+		}
+
 		// print out message for initialization success
-		fmt.Printf("Initialized empty Goit repository in %s\n", goitDir)
+		fmt.Printf("Initialized empty Goit repository in %s\n", finalGoitDir)
 
 		return nil
 	},
